@@ -50,7 +50,7 @@ def pairCols (r q : List Nat) (p : Pair) : Aln :=
 /-- the alignment a list of pairs describes -/
 def colsOf (r q : List Nat) (ps : List Pair) : Aln := (ps.map (pairCols r q)).flatten
 
-def sumRange (n : Nat) (f : Nat → Int) : Int := ((List.range n).map f).foldl (· + ·) 0
+def sumRange (n : Nat) (f : Nat → Int) : Int := ((List.range n).map f).sum
 
 /-- the score of one pair recomputed from the letters, the matrix and the gap parameters:
     a block is the sum of its letter pairs, a gap is `gapOpen` plus its per-letter gap
